@@ -209,64 +209,52 @@ def _sample(res, events, label):
 # ----------------------------------------------------------------------------------------------
 # jobs
 # ----------------------------------------------------------------------------------------------
-def _job_mc(wide):
-    cfg = _cfg("lat_mc.cfg", "SPECIFICATION Spec\nCONSTANTS\n  WIDE = %s\nINVARIANTS TypeLaws ValueLawsHold NonLatticeDocumented BimoLawsHold\nCHECK_DEADLOCK FALSE\n" % _tf(wide))
-    r = vlib.tlc(SDL, "LatticeMC", cfg=cfg, workers=4, timeout=3000)
-    if not r.ok:
-        raise vlib.ToolError("LatticeMC: a lattice law fails ON THE MODEL (spec error):\n" + r.error_trace[-3000:])
-    vlib.require_coverage(r, ["PickType", "PickValue", "PickNonLattice", "PickBimo", "PickBimoValue"])
-    return r
-
-
-def _job_vectors(exe, d, wide, thorough):
+def _job_mc_gen(d, wide, thorough):
+    """One TLC run: the laws on the model for every (descriptor, value) + the vector files."""
     out = os.path.join(d, "vec")
     if os.path.isdir(out):
         for f in os.listdir(out):
             os.remove(os.path.join(out, f))
     os.makedirs(out, exist_ok=True)
-    cfg = _cfg("lat_gen.cfg", "SPECIFICATION Spec\nCONSTANTS\n  WIDE = %s\n  TRIPLECAP = %d\n  PAIRCAP = %d\nCHECK_DEADLOCK FALSE\n"
-               % (_tf(wide), 9 if thorough else 6, 40 if thorough else 25))
-    r = vlib.tlc(SDL, "LatticeGen", cfg=cfg, workers=4, timeout=3000, env={"OUT": out})
+    cfg = _cfg("lat_mc.cfg", "SPECIFICATION Spec\nCONSTANTS\n  WIDE = %s\n  EMIT = TRUE\n  TRIPLECAP = %d\n  PAIRCAP = %d\n"
+               "INVARIANTS TypeLaws ValueLawsHold NonLatticeDocumented BimoLawsHold\nCHECK_DEADLOCK FALSE\n"
+               % (_tf(wide), 8 if thorough else 5, 36 if thorough else 20))
+    r = vlib.tlc(SDL, "LatticeMC", cfg=cfg, workers=6, timeout=3000, env={"OUT": out})
     if not r.ok:
-        raise vlib.ToolError("LatticeGen failed:\n" + r.error_trace[-3000:])
-    vlib.require_coverage(r, ["EmitType", "EmitBimo"])
+        raise vlib.ToolError("LatticeMC: a lattice law fails ON THE MODEL (spec error):\n" + r.error_trace[-3000:])
+    vlib.require_coverage(r, ["PickType", "PickValue", "PickNonLattice", "PickBimo", "PickBimoValue", "EmitType", "EmitBimo"])
     nfiles = len([f for f in os.listdir(out) if f.endswith(".ndjson")])
     if nfiles < 30:
-        raise vlib.ToolError("LatticeGen wrote only %d vector files" % nfiles)
-    trace = os.path.join(d, "replay_trace.ndjson")
-    p = vlib.run_bin(exe, ["replay", out, trace], timeout=1500)
+        raise vlib.ToolError("LatticeMC wrote only %d vector files" % nfiles)
+    return r, out
+
+
+def _run_lattice_bin(exe, args):
+    p = vlib.run_bin(exe, args, timeout=1500)
     if p.returncode != 0:
-        raise vlib.ToolError("lattice replay failed: " + p.stderr[-2000:])
-    summ = json.loads(p.stdout.strip().splitlines()[-1])
-    viol, rs, events = _validate_lattice(trace, wide, "lat_replay", chunks=6 if thorough else 3)
-    canary = _canary(events, wide, d)
-    return r, summ, viol, rs, events, canary
+        raise vlib.ToolError("lattice %s failed: %s" % (args[0], p.stderr[-2000:]))
+    return json.loads(p.stdout.strip().splitlines()[-1])
 
 
-def _job_random(exe, d, wide, thorough):
-    trace = os.path.join(d, "random_trace.ndjson")
-    p = vlib.run_bin(exe, ["random", 40 if thorough else 4, trace], timeout=1500)
-    if p.returncode != 0:
-        raise vlib.ToolError("lattice random failed: " + p.stderr[-2000:])
-    summ = json.loads(p.stdout.strip().splitlines()[-1])
-    viol, rs, events = _validate_lattice(trace, wide, "lat_random", chunks=6 if thorough else 1)
-    return summ, viol, rs, events
+def _body(trace):
+    with open(trace) as f:
+        return [ln for ln in f if ln.strip() and '"op":"eof"' not in ln]
 
 
-def _uf_cfg(name, items, maxops, malformed, emit):
-    return _cfg(name, "SPECIFICATION Spec\nCONSTANTS\n  Items = {%s}\n  MaxOps = %d\n  MALFORMED = %s\n  EMIT = %s\n"
+def _uf_cfg(name, items, modes, wf, mal, emit):
+    return _cfg(name, "SPECIFICATION Spec\nCONSTANTS\n  Items = {%s}\n  MODES = {%s}\n  MaxOpsWf = %d\n  MaxOpsMal = %d\n  EMIT = %s\n"
                 "INVARIANTS ModelOK RhoExact NoUnwrapPanic Bounded Emit\nCHECK_DEADLOCK FALSE\n"
-                % (",".join(str(i) for i in range(items)), maxops, _tf(malformed), _tf(emit)))
+                % (",".join(str(i) for i in range(items)), modes, wf, mal, _tf(emit)))
 
 
 def _job_uf(exe, d, thorough):
-    plan = [("wf", 3, 3, False), ("mal", 3, 1, True)]
+    plan = [("q", 3, "TRUE, FALSE", 3, 1)]
     if thorough:
-        plan = [("wf", 3, 3, False), ("mal", 3, 2, True), ("mal4", 4, 1, True)]
+        plan = [("t3", 3, "TRUE, FALSE", 3, 2), ("t4", 4, "TRUE", 0, 1)]
 
     def gen(item):
-        name, items, maxops, mal = item
-        r = vlib.tlc(SDU, "UnionFindImpl", cfg=_uf_cfg("uf_%s.cfg" % name, items, maxops, mal, True), workers=1,
+        name, items, modes, wf, mal = item
+        r = vlib.tlc(SDU, "UnionFindImpl", cfg=_uf_cfg("uf_%s.cfg" % name, items, modes, wf, mal, True), workers=2,
                      timeout=3000, tag="uf_" + name)
         if not r.ok:
             raise vlib.ToolError("UnionFindImpl (%s) model check failed (spec/design error):\n%s" % (name, r.error_trace[-3000:]))
@@ -274,15 +262,17 @@ def _job_uf(exe, d, thorough):
         cs = vlib.printed_json(r, "CASE")
         if len(cs) < 500:
             raise vlib.ToolError("UnionFindImpl (%s) printed only %d behaviours" % (name, len(cs)))
-        if name == "mal" and thorough:
-            cs = cs[::3]      # every third of the 2-call malformed behaviours is replayed
-        return ("UnionFindImpl exhaustive+emit %s (items=%d, calls<=%d, arbitrary maps=%s)" % (name, items, maxops, mal), r), cs
+        if name == "t3":
+            cs = [c for i, c in enumerate(cs) if len(c["ops"]) <= 1 or not c["init"] or i % 3 == 0]
+        return ("UnionFindImpl exhaustive+emit (items=%d; from empty map: calls<=%d; arbitrary parent maps: calls<=%d)" % (items, wf, mal), r), cs
 
     jobs, cases = [], []
     with concurrent.futures.ThreadPoolExecutor(max_workers=len(plan)) as ex:
         for job, cs in ex.map(gen, plan):
             jobs.append(job)
             cases += cs
+    if not any(c["init"] for c in cases) or not any(-1 in c["rets"] for c in cases):
+        raise vlib.ToolError("vacuous: no malformed / diverging union-find behaviour was generated")
     casefile = os.path.join(d, "uf_cases.ndjson")
     vlib.write_ndjson(casefile, cases)
     trace = os.path.join(d, "uf_replay_trace.ndjson")
@@ -290,38 +280,47 @@ def _job_uf(exe, d, thorough):
     if p.returncode != 0:
         raise vlib.ToolError("unionfind replay failed: " + p.stderr[-2000:])
     summ = json.loads(p.stdout.strip().splitlines()[-1])
-    # random longer histories
     rtrace = os.path.join(d, "uf_random_trace.ndjson")
     p = vlib.run_bin(exe, ["random", 6000 if thorough else 600, 8, 12, rtrace], timeout=1500)
     if p.returncode != 0:
         raise vlib.ToolError("unionfind random failed: " + p.stderr[-2000:])
     rsumm = json.loads(p.stdout.strip().splitlines()[-1])
-    # canary: flip one `same` answer of the good trace
-    evs = vlib.read_ndjson(trace)
+    # one combined trace: replayed behaviours (case k), random histories (case 1000000+k) and a
+    # canary (case -1: a recorded good case with one `same` answer flipped)
+    evs = [e for e in vlib.read_ndjson(trace) if e.get("e") != "eof"]
+    revs = [e for e in vlib.read_ndjson(rtrace) if e.get("e") != "eof"]
+    for e in revs:
+        if e.get("e") == "reset":
+            e["case"] += 1000000
+    canary, on = [], False
     for e in evs:
-        if e.get("e") == "same" and e["a"] != e["b"]:
-            e["ret"] = 1 - e["ret"]
-            break
-    cp = os.path.join(d, "uf_canary_trace.ndjson")
-    vlib.write_ndjson(cp, (evs[:400] + [{"e": "eof"}]) if len(evs) > 400 else evs)
-    with concurrent.futures.ThreadPoolExecutor(max_workers=3) as ex:
-        f1 = ex.submit(_validate_uf, trace, "uf_replay_tv")
-        f2 = ex.submit(_validate_uf, rtrace, "uf_random_tv")
-        f3 = ex.submit(_validate_uf, cp, "uf_canary_tv")
-        viol, r = f1.result()
-        rviol, r2 = f2.result()
-        cviol, _ = f3.result()
-    jobs.append(("trace-validation:uf-replay", r))
-    jobs.append(("trace-validation:uf-random", r2))
-    if not any(rule == "same/result" for _, rule in cviol):
+        if e.get("e") == "reset":
+            if on:
+                break
+            on = False
+            canary = [dict(e, case=-1)]
+        elif canary:
+            canary.append(dict(e))
+            if e.get("e") == "same" and e["a"] != e["b"] and not on:
+                canary[-1]["ret"] = 1 - e["ret"]
+                on = True
+    if not on:
+        raise vlib.ToolError("canary: no `same` call found to corrupt")
+    combined = os.path.join(d, "uf_all_trace.ndjson")
+    vlib.write_ndjson(combined, evs + revs + canary + [{"e": "eof"}])
+    allviol, r = _validate_uf(combined, "uf_tv")
+    jobs.append(("trace-validation:union-find replay+random (%d events)" % (len(evs) + len(revs)), r))
+    if not any(c == -1 and rule == "same/result" for c, rule in allviol):
         raise vlib.ToolError("canary: flipped `same` answer NOT flagged by UnionFindTrace")
+    viol = [(c, rule) for c, rule in allviol if 0 < c < 1000000]
+    rviol = [(c - 1000000, rule) for c, rule in allviol if c >= 1000000]
     return jobs, cases, summ, viol, trace, rsumm, rviol, rtrace
 
 
 # ----------------------------------------------------------------------------------------------
 # canaries
 # ----------------------------------------------------------------------------------------------
-def _canary(events, wide, d):
+def _canary_events(events):
     """Corrupt one field of good recorded events; the trace spec must flag each corruption."""
     want, out = [], []
 
@@ -335,36 +334,29 @@ def _canary(events, wide, d):
 
     e = find("merge", lambda e: e["ty"] == "map_set" and e["g"][0]["flag"] == 1)
     e["g"][0]["flag"] = 0
-    out.append(e); want.append("/merge/flag")
+    out.append(e); want.append("merge/flag")
     e = find("merge", lambda e: e["ty"] == "set" and len(e["g"][0]["r"]) >= 2)
     e["g"][0]["r"] = e["g"][0]["r"][1:]
-    out.append(e); want.append("/merge/result")
+    out.append(e); want.append("merge/result")
     e = find("cmp", lambda e: e["ty"] == "map_max" and e["g"][0]["c"] == -1)
     e["g"][0]["c"] = 1
-    out.append(e); want.append("/partial_cmp/result")
+    out.append(e); want.append("partial_cmp/result")
     e = find("un", lambda e: e["ty"] == "wb_set" and e["g"][0]["bot"] == 1)
     e["g"][0]["bot"] = 0
-    out.append(e); want.append("/is_bot/result")
+    out.append(e); want.append("is_bot/result")
     e = find("atoms", lambda e: e["ty"] == "map_set" and len(e["g"][0]["atoms"]) >= 2)
     e["g"][0]["atoms"] = e["g"][0]["atoms"][1:]
-    out.append(e); want.append("/atomize/atoms-do-not-rejoin")
+    out.append(e); want.append("atomize/atoms-do-not-rejoin")
     e = find("assoc", lambda e: e["ty"] == "struct3")
     e["g"][0]["eq"] = 0
-    out.append(e); want.append("/associative/eq")
+    out.append(e); want.append("associative/eq")
     e = find("bimo", lambda e: e["ty"] == "cart" and len(e["g"][0]["o1"]) >= 2)
     e["g"][0]["o1"] = e["g"][0]["o1"][1:]
-    out.append(e); want.append("/distributes/value")
+    out.append(e); want.append("distributes/value")
     e = find("from", lambda e: e["ty"] == "vec_set" and len(e["g"][0]["r"]) >= 1)
     e["g"][0]["r"] = e["g"][0]["r"][:-1]
-    out.append(e); want.append("/lattice_from/result")
-    p = os.path.join(d, "canary_trace.ndjson")
-    vlib.write_ndjson(p, out + [{"op": "eof"}])
-    viol, rs, _ = _validate_lattice(p, wide, "lat_canary")
-    got = {(v[0], v[2].split("|", 1)[1].split("/", 1)[1]) for v in viol}
-    missed = [(i + 1, w) for i, w in enumerate(want) if (i + 1, w.lstrip("/")) not in got]
-    if missed:
-        raise vlib.ToolError("canary: corrupted events NOT flagged by LatticeTrace: %s (got %s)" % (missed, sorted(got)))
-    return "8 corrupted lattice events (flag, result, cmp, is_bot, atoms, assoc ==, bimorphism output, lattice_from) and a flipped union-find `same` answer were all flagged"
+    out.append(e); want.append("lattice_from/result")
+    return [json.dumps(e, separators=(",", ":")) + "\n" for e in out], want
 
 
 # ----------------------------------------------------------------------------------------------
@@ -377,15 +369,33 @@ def run(tier):
     ufexe = os.path.join(bindir, "unionfind")
     d = vlib.rundir("lattice")
 
-    with concurrent.futures.ThreadPoolExecutor(max_workers=4) as ex:
-        f_mc = ex.submit(_job_mc, wide)
-        f_vec = ex.submit(_job_vectors, exe, d, wide, thorough)
-        f_rnd = ex.submit(_job_random, exe, d, wide, thorough)
+    with concurrent.futures.ThreadPoolExecutor(max_workers=3) as ex:
         f_uf = ex.submit(_job_uf, ufexe, d, thorough)
-        r_mc = f_mc.result()
-        r_gen, summ, viol, rs_replay, events, canary = f_vec.result()
-        rsumm, rviol, rs_rand, revents = f_rnd.result()
+        rtrace = os.path.join(d, "random_trace.ndjson")
+        f_rnd = ex.submit(_run_lattice_bin, exe, ["random", 40 if thorough else 4, rtrace])
+        r_mc, vecdir = _job_mc_gen(d, wide, thorough)
+        trace = os.path.join(d, "replay_trace.ndjson")
+        summ = _run_lattice_bin(exe, ["replay", vecdir, trace])
+        rsumm = f_rnd.result()
+        events = _body(trace)
+        revents = _body(rtrace)
+        cevents, cwant = _canary_events(events)
+        # one combined trace (replayed vectors, random values, canaries), validated in chunks
+        allt = os.path.join(d, "all_trace.ndjson")
+        with open(allt, "w") as f:
+            f.writelines(events + revents + cevents)
+            f.write('{"op":"eof"}\n')
+        allviol, rs_tv, allev = _validate_lattice(allt, wide, "lat_tv", chunks=8 if thorough else 3)
         uf_jobs, uf_cases, uf_summ, uf_viol, uf_trace, uf_rsumm, uf_rviol, uf_rtrace = f_uf.result()
+    n1, n2 = len(events), len(events) + len(revents)
+    viol = [v for v in allviol if v[0] <= n1]
+    rviol = [[v[0] - n1, v[1], v[2]] for v in allviol if n1 < v[0] <= n2]
+    cgot = {(v[0] - n2, v[2].split("|", 1)[1].split("/", 1)[1]) for v in allviol if v[0] > n2}
+    missed = [(i + 1, w) for i, w in enumerate(cwant) if (i + 1, w) not in cgot]
+    if missed:
+        raise vlib.ToolError("canary: corrupted events NOT flagged by LatticeTrace: %s (got %s)" % (missed, sorted(cgot)))
+    canary = ("8 corrupted copies of good recorded events (flag, merge result, partial_cmp, is_bot, atoms, assoc ==, "
+              "bimorphism output, lattice_from) and a flipped union-find `same` answer were all flagged by the trace specs")
 
     # ---- harness consistency: scalar outputs cross-checked in Rust against the TLC vectors must
     # agree with the TLC verdict on the recorded trace
@@ -402,12 +412,9 @@ def run(tier):
         raise vlib.ToolError("vacuous replay: only %d operations / %d events" % (summ["ops"], len(events)))
 
     for pid in PROPS:
-        res[pid].add_tlc(r_mc, "LatticeMC: laws on the model (all descriptors x all values; bimorphisms; non-lattice)")
-        res[pid].add_tlc(r_gen, "LatticeGen: vectors")
-        for i, r in enumerate(rs_replay):
-            res[pid].add_tlc(r, "trace-validation:replay chunk %d" % i)
-        for i, r in enumerate(rs_rand):
-            res[pid].add_tlc(r, "trace-validation:random chunk %d" % i)
+        res[pid].add_tlc(r_mc, "LatticeMC: laws on the model (all descriptors x all values; bimorphisms; non-lattice) + vector emission")
+        for i, r in enumerate(rs_tv):
+            res[pid].add_tlc(r, "trace-validation:replay+random chunk %d" % i)
     _account(res, events, summ, "replay")
     _account(res, revents, rsumm, "random")
     _sample(res, events, "vector replayed into every representation (g = distinct results of the real code)")
@@ -423,7 +430,7 @@ def run(tier):
     r4.evaluations += uf_summ["calls"] + uf_rsumm["calls"]
     r4.distinct_nontrivial += len({json.dumps([c["init"], c["ops"]]) for c in uf_cases if len(c["ops"]) >= 2 or c["init"]})
     r4.samples.append({"kind": "union-find behaviour printed by TLC and replayed (rets: -1 = find diverges in the model)", **uf_cases[len(uf_cases) // 2]})
-    r4.samples.append({"kind": "union-find behaviour on an arbitrary parent map", **uf_cases[-7]})
+    r4.samples.append({"kind": "union-find behaviour on an arbitrary parent map", **[c for c in uf_cases if c["init"]][-7]})
     for dr in uf_summ["drift"][:10]:
         r4.drift.append({"kind": "call result / parent pointers differ from UnionFindImpl", **dr})
     for case, rule in uf_viol:
